@@ -11,7 +11,7 @@ STARTS = [(2019182, 12), (1970001, 0), (1999365, 23), (2000059, 23), (2000366, 2
           (2000060, 22)]
 PAYLOADS = ['ramp', 'zero', 'negzero', 'one', 'denorm', 'tiny', 'huge', 'neg']
 NAMES = ['AVERAGE', 'EMISSIONS', 'AIRQUALITY', 'INSTANT']
-SPECIES = [['O3'], ['O3', 'NO2'], ['O', 'NO2', 'ABCDEFGHIJ']]
+SPECIES = [['O3'], ['O3', 'NO2'], ['O', 'NO2', 'ABCDEFGHIJ'], ['NO', 'NO_2']]
 SHAPES = [(nx, ny, nz) for nx in (1, 2, 3) for ny in (1, 2, 3) for nz in (1, 2, 3)]
 GRID2 = dict(plon=-100., plat=45., iutm=0, xorg=-24., yorg=12., delx=4., dely=4., iproj=2, istag=0,
              tlat1=30., tlat2=60.)
@@ -103,7 +103,16 @@ def extras(fmt, add):
             add(nsteps=n, crv3=True, shape=[2, 3, 3])
         add(cldhdr=1)
         add(cldhdr=1, nsteps=1)
+    if fmt in MET:
+        # daily files: consecutive steps carry the same hour and differ in the date only
+        for n in (2, 3):
+            add(nsteps=n, daily=True)
+            add(nsteps=n, daily=True, start=2)
+            add(nsteps=n, daily=True, start=4, shape=[2, 2, 1])
     if fmt == 'wind':
+        # staggered winds (flag 1 in the time header)
+        for n in (1, 2):
+            add(nsteps=n, lstagger=1)
         # older 8-byte time header without the staggering flag
         for n in (1, 2, 3, 4, 5):
             add(nsteps=n, hdr8=True)
@@ -126,7 +135,7 @@ def materialize(d):
     dd, hh = start, hour
     for i in range(n + 1):
         inst.append((dd, hh))
-        dd, hh = rf.add_hours(dd, hh, 1)
+        dd, hh = rf.add_hours(dd, hh, 24 if d.get('daily') else 1)
     r['instants'] = inst
     p = d['payload']
     if fmt in ('uamiv', 'lateral_boundary'):
@@ -158,7 +167,7 @@ def materialize(d):
     elif fmt == 'wind':
         r['u'] = mk(0)
         r['v'] = mk(500000)
-        r['lstagger'] = None if d.get('hdr8') else 0
+        r['lstagger'] = None if d.get('hdr8') else d.get('lstagger', 0)
     elif fmt == 'cloud_rain':
         r['crvars'] = list(rf.CR_VARS3 if d.get('crv3') else rf.CR_VARS5)
         r['cldhdr'] = CLDHDRS[d.get('cldhdr', 0)]
